@@ -245,6 +245,10 @@ Pow2(n) == IF n = 0 THEN 1 ELSE IF n = 1 THEN 2 ELSE IF n = 2 THEN 4 ELSE IF n =
 Bit(m, i) == (m \div Pow2(i)) % 2
 FlagsOf(m) == {CommFlags[i + 1] : i \in {j \in 0..11 : Bit(m, j) = 1}}
 PopCount(m) == Cardinality({j \in 0..11 : Bit(m, j) = 1})
+\* mask value 4096 stands for the status word FFFFFFFFh (every flag and the undefined bits too)
+CommAllOnes == 4096
+CommMasks == 0..CommAllOnes
+FlagsOfV(v) == IF v = CommAllOnes THEN FlagsOf(4095) ELSE FlagsOf(v)
 
 QuickPrepStatus == {0, 1, 2, 255}
 \* tiers: "thorough" = everything; "quick" = all values on the final command, samples on preparatory ones;
@@ -253,12 +257,13 @@ StatusDom(final, tier) == IF tier = "thorough" \/ (final /\ tier = "quick") THEN
                           ELSE IF tier = "quick" THEN QuickPrepStatus ELSE {0, 1, 10, 11}
 RegDom(c, final, tier) == IF tier = "thorough" \/ (final /\ tier = "quick") THEN RegDomain(c)
                           ELSE RegDomain(c) \cap (QuickPrepStatus \cup {32, 48})
-MaskOk(m, tier) == tier = "thorough" \/ PopCount(m) <= (IF tier = "quick" THEN 2 ELSE 1)
+\* quick: no flag, every single flag, every pair of flags, all defined flags, all ones
+MaskOk(m, tier) == tier = "thorough" \/ m >= 4095 \/ PopCount(m) <= (IF tier = "quick" THEN 2 ELSE 1)
 \* the faults the harness injects at command c (final or not) in the given tier
 SliceFaults(d, c, final, tier) ==
   IF d = "udp" THEN (IF final THEN UdpRecvFaults ELSE UdpSendFaults)
   ELSE LinkFaults(d)
-    \cup (IF HasCommStatus(d, c) THEN {F("CommStatus", m) : m \in {x \in 0..4095 : MaskOk(x, tier)}} ELSE {})
+    \cup (IF HasCommStatus(d, c) THEN {F("CommStatus", m) : m \in {x \in CommMasks : MaskOk(x, tier)}} ELSE {})
     \cup (IF HasStatus(d, c) THEN {F("ChipStatus", s) : s \in StatusDom(final, tier)} ELSE {})
     \cup (IF d \in Pn53xFam /\ c \in RegReads THEN {F("RegValue", s) : s \in RegDom(c, final, tier)} ELSE {})
 
@@ -277,12 +282,12 @@ OpHasStatus(d, c) ==
 QuickOpStatus == {0, 1, 2, 10, 11, 41, 49, 64, 128, 255}
 OpStatusDom(tier) == IF tier = "thorough" THEN 0..255 ELSE IF tier = "quick" THEN QuickOpStatus ELSE {0, 1}
 OpRegDom(c, tier) == IF tier = "thorough" THEN RegDomain(c) ELSE RegDomain(c) \cap {0, 1, 2, 32, 38, 48, 255}
-OpMaskOk(m, tier) == tier = "thorough" \/ PopCount(m) <= 1
+OpMaskOk(m, tier) == tier = "thorough" \/ m = CommAllOnes \/ PopCount(m) <= 1
 UdpBindFaults == {F("HostIO", 0), F("AddrInUse", 0)}
 OpFaults(d, c, tier) ==
   IF d = "udp" THEN (IF c = "bind" THEN UdpBindFaults ELSE IF c = "sendto" THEN UdpSendFaults ELSE UdpRecvFaults)
   ELSE LinkFaults(d)
-    \cup (IF HasCommStatus(d, c) THEN {F("CommStatus", m) : m \in {x \in 0..4095 : OpMaskOk(x, tier)}} ELSE {})
+    \cup (IF HasCommStatus(d, c) THEN {F("CommStatus", m) : m \in {x \in CommMasks : OpMaskOk(x, tier)}} ELSE {})
     \cup (IF OpHasStatus(d, c) THEN {F("ChipStatus", s) : s \in OpStatusDom(tier)} ELSE {})
     \* InListPassiveTarget answers with the number of targets found (NbTg), 1 in the scenarios
     \cup (IF c = "InListPassiveTarget" THEN {F("NbTg", s) : s \in {0, 1, 2, 255}} ELSE {})
@@ -319,6 +324,14 @@ FlagClass(mode, fl) ==
     [] fl = "RF_OFF_ERROR"           -> IF mode = "target" THEN {"BrokenLink"} ELSE {"BrokenLink", "Transmission"}
     [] fl = "PROTOCOL_ERROR"         -> {"Protocol", "Transmission"}
     [] OTHER                         -> {"Transmission"}
+\* several flags at once: the documented errors are ranked.  Acting as target, field loss (BrokenLinkError, what ends
+\* the card emulation loop of connect()) wins over the receive time-out, which wins over the transmission errors;
+\* as initiator a receive time-out wins (nothing was received, the other receive flags say nothing) and the rest is a
+\* transmission error of one of the flagged kinds.
+CommClass(mode, fs) ==
+  IF mode = "target" /\ "RF_OFF_ERROR" \in fs THEN {"BrokenLink"}
+  ELSE IF "RECEIVE_TIMEOUT_ERROR" \in fs THEN {"Timeout"}
+  ELSE UNION {FlagClass(mode, fl) : fl \in fs}
 
 Benign(d, k, at, f) ==
   \/ f.k = "None"
@@ -370,7 +383,7 @@ Allowed(d, k, at, f) ==
               ELSE (StatusClass(mode, f.v) \cup StatusClass(mode, f.v % 64)) \cup NoneOk(k)
     [] f.k = "CommStatus" ->
          IF f.v = 0 THEN {"Data"}
-         ELSE UNION {FlagClass(mode, fl) : fl \in FlagsOf(f.v)} \cup NoneOk(k)
+         ELSE CommClass(mode, FlagsOfV(f.v)) \cup NoneOk(k)
     [] f.k = "RegValue"   -> Documented \cup NoneOk(k)        \* a value read from the CIU: any RF result
     [] f.k = "ErrorFrame" -> {"Transmission", "Protocol", "IOErr"} \cup NoneOk(k)
     [] f.k = "HostTimeout" -> IF c \in RegReads THEN {"Timeout", "IOErr"}   \* a register read: host link
